@@ -210,7 +210,9 @@ def run(original_args) -> int:
             original_args,
             context.compile_results(codemods_to_run),
         )
-        codetf.write_report(argv.output)
+        if codetf.write_report(argv.output) == 2:
+            # Any issues with writing the output file should exit status 2.
+            return 2
 
     log_report(
         context,
